@@ -84,10 +84,20 @@ void parser::error(const std::string &msg)
     throw SymEngine::ParseError(msg);
 }
 
+// operands of the logical operators must be Boolean expressions
+static RCP<const Boolean> to_boolean(const RCP<const Basic> &e)
+{
+    if (!SymEngine::is_a_Boolean(*e)) {
+        throw SymEngine::ParseError(SymEngine::StreamFmt()
+                                    << "Not of Boolean type: " << e->__str__());
+    }
+    return rcp_static_cast<const Boolean>(e);
+}
+
 }
 
 
-#line 91 "parser.tab.cc"
+#line 100 "parser.tab.cc"
 
 
 #ifndef YY_
@@ -160,7 +170,7 @@ void parser::error(const std::string &msg)
 #define YYRECOVERING()  (!!yyerrstatus_)
 
 namespace yy {
-#line 164 "parser.tab.cc"
+#line 173 "parser.tab.cc"
 
   /// Build a parser object.
   parser::parser (SymEngine::Parser &p_yyarg)
@@ -822,40 +832,40 @@ namespace yy {
           switch (yyn)
             {
   case 2: // st_expr: expr
-#line 104 "parser.yy"
+#line 113 "parser.yy"
     {
         yylhs.value.as < SymEngine::RCP<const SymEngine::Basic> > () = yystack_[0].value.as < SymEngine::RCP<const SymEngine::Basic> > ();
         p.res = yylhs.value.as < SymEngine::RCP<const SymEngine::Basic> > ();
     }
-#line 831 "parser.tab.cc"
+#line 840 "parser.tab.cc"
     break;
 
   case 3: // expr: expr '+' expr
-#line 112 "parser.yy"
+#line 121 "parser.yy"
         { yylhs.value.as < SymEngine::RCP<const SymEngine::Basic> > () = add(yystack_[2].value.as < SymEngine::RCP<const SymEngine::Basic> > (), yystack_[0].value.as < SymEngine::RCP<const SymEngine::Basic> > ()); }
-#line 837 "parser.tab.cc"
+#line 846 "parser.tab.cc"
     break;
 
   case 4: // expr: expr '-' expr
-#line 115 "parser.yy"
+#line 124 "parser.yy"
         { yylhs.value.as < SymEngine::RCP<const SymEngine::Basic> > () = sub(yystack_[2].value.as < SymEngine::RCP<const SymEngine::Basic> > (), yystack_[0].value.as < SymEngine::RCP<const SymEngine::Basic> > ()); }
-#line 843 "parser.tab.cc"
+#line 852 "parser.tab.cc"
     break;
 
   case 5: // expr: expr '*' expr
-#line 118 "parser.yy"
+#line 127 "parser.yy"
         { yylhs.value.as < SymEngine::RCP<const SymEngine::Basic> > () = mul(yystack_[2].value.as < SymEngine::RCP<const SymEngine::Basic> > (), yystack_[0].value.as < SymEngine::RCP<const SymEngine::Basic> > ()); }
-#line 849 "parser.tab.cc"
+#line 858 "parser.tab.cc"
     break;
 
   case 6: // expr: expr '/' expr
-#line 121 "parser.yy"
+#line 130 "parser.yy"
         { yylhs.value.as < SymEngine::RCP<const SymEngine::Basic> > () = div(yystack_[2].value.as < SymEngine::RCP<const SymEngine::Basic> > (), yystack_[0].value.as < SymEngine::RCP<const SymEngine::Basic> > ()); }
-#line 855 "parser.tab.cc"
+#line 864 "parser.tab.cc"
     break;
 
   case 7: // expr: IMPLICIT_MUL POW expr
-#line 126 "parser.yy"
+#line 135 "parser.yy"
         {
           auto tup = p.parse_implicit_mul(yystack_[2].value.as < std::string > ());
           if (neq(*std::get<1>(tup), *one)) {
@@ -864,165 +874,165 @@ namespace yy {
             yylhs.value.as < SymEngine::RCP<const SymEngine::Basic> > () = pow(std::get<0>(tup), yystack_[0].value.as < SymEngine::RCP<const SymEngine::Basic> > ());
           }
         }
-#line 868 "parser.tab.cc"
+#line 877 "parser.tab.cc"
     break;
 
   case 8: // expr: expr POW expr
-#line 136 "parser.yy"
+#line 145 "parser.yy"
         { yylhs.value.as < SymEngine::RCP<const SymEngine::Basic> > () = pow(yystack_[2].value.as < SymEngine::RCP<const SymEngine::Basic> > (), yystack_[0].value.as < SymEngine::RCP<const SymEngine::Basic> > ()); }
-#line 874 "parser.tab.cc"
+#line 883 "parser.tab.cc"
     break;
 
   case 9: // expr: expr '<' expr
-#line 139 "parser.yy"
+#line 148 "parser.yy"
         { yylhs.value.as < SymEngine::RCP<const SymEngine::Basic> > () = rcp_static_cast<const Basic>(Lt(yystack_[2].value.as < SymEngine::RCP<const SymEngine::Basic> > (), yystack_[0].value.as < SymEngine::RCP<const SymEngine::Basic> > ())); }
-#line 880 "parser.tab.cc"
+#line 889 "parser.tab.cc"
     break;
 
   case 10: // expr: expr '>' expr
-#line 142 "parser.yy"
+#line 151 "parser.yy"
         { yylhs.value.as < SymEngine::RCP<const SymEngine::Basic> > () = rcp_static_cast<const Basic>(Gt(yystack_[2].value.as < SymEngine::RCP<const SymEngine::Basic> > (), yystack_[0].value.as < SymEngine::RCP<const SymEngine::Basic> > ())); }
-#line 886 "parser.tab.cc"
+#line 895 "parser.tab.cc"
     break;
 
   case 11: // expr: expr NE expr
-#line 145 "parser.yy"
+#line 154 "parser.yy"
         { yylhs.value.as < SymEngine::RCP<const SymEngine::Basic> > () = rcp_static_cast<const Basic>(Ne(yystack_[2].value.as < SymEngine::RCP<const SymEngine::Basic> > (), yystack_[0].value.as < SymEngine::RCP<const SymEngine::Basic> > ())); }
-#line 892 "parser.tab.cc"
+#line 901 "parser.tab.cc"
     break;
 
   case 12: // expr: expr LE expr
-#line 148 "parser.yy"
+#line 157 "parser.yy"
         { yylhs.value.as < SymEngine::RCP<const SymEngine::Basic> > () = rcp_static_cast<const Basic>(Le(yystack_[2].value.as < SymEngine::RCP<const SymEngine::Basic> > (), yystack_[0].value.as < SymEngine::RCP<const SymEngine::Basic> > ())); }
-#line 898 "parser.tab.cc"
+#line 907 "parser.tab.cc"
     break;
 
   case 13: // expr: expr GE expr
-#line 151 "parser.yy"
+#line 160 "parser.yy"
         { yylhs.value.as < SymEngine::RCP<const SymEngine::Basic> > () = rcp_static_cast<const Basic>(Ge(yystack_[2].value.as < SymEngine::RCP<const SymEngine::Basic> > (), yystack_[0].value.as < SymEngine::RCP<const SymEngine::Basic> > ())); }
-#line 904 "parser.tab.cc"
+#line 913 "parser.tab.cc"
     break;
 
   case 14: // expr: expr EQ expr
-#line 154 "parser.yy"
+#line 163 "parser.yy"
         { yylhs.value.as < SymEngine::RCP<const SymEngine::Basic> > () = rcp_static_cast<const Basic>(Eq(yystack_[2].value.as < SymEngine::RCP<const SymEngine::Basic> > (), yystack_[0].value.as < SymEngine::RCP<const SymEngine::Basic> > ())); }
-#line 910 "parser.tab.cc"
+#line 919 "parser.tab.cc"
     break;
 
   case 15: // expr: expr '|' expr
-#line 157 "parser.yy"
+#line 166 "parser.yy"
         {
             set_boolean s;
-            s.insert(rcp_static_cast<const Boolean>(yystack_[2].value.as < SymEngine::RCP<const SymEngine::Basic> > ()));
-            s.insert(rcp_static_cast<const Boolean>(yystack_[0].value.as < SymEngine::RCP<const SymEngine::Basic> > ()));
+            s.insert(to_boolean(yystack_[2].value.as < SymEngine::RCP<const SymEngine::Basic> > ()));
+            s.insert(to_boolean(yystack_[0].value.as < SymEngine::RCP<const SymEngine::Basic> > ()));
             yylhs.value.as < SymEngine::RCP<const SymEngine::Basic> > () = rcp_static_cast<const Basic>(logical_or(s));
         }
-#line 921 "parser.tab.cc"
+#line 930 "parser.tab.cc"
     break;
 
   case 16: // expr: expr '&' expr
-#line 165 "parser.yy"
+#line 174 "parser.yy"
         {
             set_boolean s;
-            s.insert(rcp_static_cast<const Boolean>(yystack_[2].value.as < SymEngine::RCP<const SymEngine::Basic> > ()));
-            s.insert(rcp_static_cast<const Boolean>(yystack_[0].value.as < SymEngine::RCP<const SymEngine::Basic> > ()));
+            s.insert(to_boolean(yystack_[2].value.as < SymEngine::RCP<const SymEngine::Basic> > ()));
+            s.insert(to_boolean(yystack_[0].value.as < SymEngine::RCP<const SymEngine::Basic> > ()));
             yylhs.value.as < SymEngine::RCP<const SymEngine::Basic> > () = rcp_static_cast<const Basic>(logical_and(s));
         }
-#line 932 "parser.tab.cc"
+#line 941 "parser.tab.cc"
     break;
 
   case 17: // expr: expr '^' expr
-#line 173 "parser.yy"
+#line 182 "parser.yy"
         {
             vec_boolean s;
-            s.push_back(rcp_static_cast<const Boolean>(yystack_[2].value.as < SymEngine::RCP<const SymEngine::Basic> > ()));
-            s.push_back(rcp_static_cast<const Boolean>(yystack_[0].value.as < SymEngine::RCP<const SymEngine::Basic> > ()));
+            s.push_back(to_boolean(yystack_[2].value.as < SymEngine::RCP<const SymEngine::Basic> > ()));
+            s.push_back(to_boolean(yystack_[0].value.as < SymEngine::RCP<const SymEngine::Basic> > ()));
             yylhs.value.as < SymEngine::RCP<const SymEngine::Basic> > () = rcp_static_cast<const Basic>(logical_xor(s));
         }
-#line 943 "parser.tab.cc"
+#line 952 "parser.tab.cc"
     break;
 
   case 18: // expr: '(' expr ')'
-#line 181 "parser.yy"
+#line 190 "parser.yy"
         { yylhs.value.as < SymEngine::RCP<const SymEngine::Basic> > () = yystack_[1].value.as < SymEngine::RCP<const SymEngine::Basic> > (); }
-#line 949 "parser.tab.cc"
+#line 958 "parser.tab.cc"
     break;
 
   case 19: // expr: '-' expr
-#line 184 "parser.yy"
+#line 193 "parser.yy"
         { yylhs.value.as < SymEngine::RCP<const SymEngine::Basic> > () = neg(yystack_[0].value.as < SymEngine::RCP<const SymEngine::Basic> > ()); }
-#line 955 "parser.tab.cc"
+#line 964 "parser.tab.cc"
     break;
 
   case 20: // expr: '+' expr
-#line 187 "parser.yy"
+#line 196 "parser.yy"
         { yylhs.value.as < SymEngine::RCP<const SymEngine::Basic> > () = yystack_[0].value.as < SymEngine::RCP<const SymEngine::Basic> > (); }
-#line 961 "parser.tab.cc"
+#line 970 "parser.tab.cc"
     break;
 
   case 21: // expr: '~' expr
-#line 190 "parser.yy"
-        { yylhs.value.as < SymEngine::RCP<const SymEngine::Basic> > () = rcp_static_cast<const Basic>(logical_not(rcp_static_cast<const Boolean>(yystack_[0].value.as < SymEngine::RCP<const SymEngine::Basic> > ()))); }
-#line 967 "parser.tab.cc"
+#line 199 "parser.yy"
+        { yylhs.value.as < SymEngine::RCP<const SymEngine::Basic> > () = rcp_static_cast<const Basic>(logical_not(to_boolean(yystack_[0].value.as < SymEngine::RCP<const SymEngine::Basic> > ()))); }
+#line 976 "parser.tab.cc"
     break;
 
   case 22: // expr: leaf
-#line 193 "parser.yy"
+#line 202 "parser.yy"
         { yylhs.value.as < SymEngine::RCP<const SymEngine::Basic> > () = rcp_static_cast<const Basic>(yystack_[0].value.as < SymEngine::RCP<const SymEngine::Basic> > ()); }
-#line 973 "parser.tab.cc"
+#line 982 "parser.tab.cc"
     break;
 
   case 23: // leaf: IDENTIFIER
-#line 198 "parser.yy"
+#line 207 "parser.yy"
     {
         yylhs.value.as < SymEngine::RCP<const SymEngine::Basic> > () = p.parse_identifier(yystack_[0].value.as < std::string > ());
-    }
-#line 981 "parser.tab.cc"
-    break;
-
-  case 24: // leaf: IMPLICIT_MUL
-#line 203 "parser.yy"
-    {
-        auto tup = p.parse_implicit_mul(yystack_[0].value.as < std::string > ());
-        yylhs.value.as < SymEngine::RCP<const SymEngine::Basic> > () = mul(std::get<0>(tup), std::get<1>(tup));
     }
 #line 990 "parser.tab.cc"
     break;
 
+  case 24: // leaf: IMPLICIT_MUL
+#line 212 "parser.yy"
+    {
+        auto tup = p.parse_implicit_mul(yystack_[0].value.as < std::string > ());
+        yylhs.value.as < SymEngine::RCP<const SymEngine::Basic> > () = mul(std::get<0>(tup), std::get<1>(tup));
+    }
+#line 999 "parser.tab.cc"
+    break;
+
   case 25: // leaf: NUMERIC
-#line 209 "parser.yy"
+#line 218 "parser.yy"
     {
         yylhs.value.as < SymEngine::RCP<const SymEngine::Basic> > () = p.parse_numeric(yystack_[0].value.as < std::string > ());
     }
-#line 998 "parser.tab.cc"
+#line 1007 "parser.tab.cc"
     break;
 
   case 26: // leaf: func
-#line 214 "parser.yy"
+#line 223 "parser.yy"
     {
         yylhs.value.as < SymEngine::RCP<const SymEngine::Basic> > () = yystack_[0].value.as < SymEngine::RCP<const SymEngine::Basic> > ();
     }
-#line 1006 "parser.tab.cc"
+#line 1015 "parser.tab.cc"
     break;
 
   case 27: // leaf: pwise
-#line 219 "parser.yy"
+#line 228 "parser.yy"
     {
         yylhs.value.as < SymEngine::RCP<const SymEngine::Basic> > () = yystack_[0].value.as < SymEngine::RCP<const SymEngine::Basic> > ();
     }
-#line 1014 "parser.tab.cc"
+#line 1023 "parser.tab.cc"
     break;
 
   case 28: // func: IDENTIFIER '(' expr_list ')'
-#line 226 "parser.yy"
+#line 235 "parser.yy"
     {
         yylhs.value.as < SymEngine::RCP<const SymEngine::Basic> > () = p.functionify(yystack_[3].value.as < std::string > (), yystack_[1].value.as < SymEngine::vec_basic > ());
     }
-#line 1022 "parser.tab.cc"
+#line 1031 "parser.tab.cc"
     break;
 
   case 29: // epair: '(' expr ',' expr ')'
-#line 234 "parser.yy"
+#line 243 "parser.yy"
     {
         auto logical_expr = yystack_[1].value.as < SymEngine::RCP<const SymEngine::Basic> > ();
         if (!SymEngine::is_a_Boolean(*logical_expr)) {
@@ -1031,54 +1041,54 @@ namespace yy {
         }
         yylhs.value.as < std::pair<SymEngine::RCP<const SymEngine::Basic>, SymEngine::RCP<const SymEngine::Boolean>> > () = std::make_pair(yystack_[3].value.as < SymEngine::RCP<const SymEngine::Basic> > (), rcp_static_cast<const Boolean>(logical_expr));
     }
-#line 1035 "parser.tab.cc"
+#line 1044 "parser.tab.cc"
     break;
 
   case 30: // piecewise_list: piecewise_list ',' epair
-#line 246 "parser.yy"
+#line 255 "parser.yy"
     {
        yylhs.value.as < SymEngine::PiecewiseVec > () = yystack_[2].value.as < SymEngine::PiecewiseVec > ();
        yylhs.value.as < SymEngine::PiecewiseVec > () .push_back(yystack_[0].value.as < std::pair<SymEngine::RCP<const SymEngine::Basic>, SymEngine::RCP<const SymEngine::Boolean>> > ());
     }
-#line 1044 "parser.tab.cc"
+#line 1053 "parser.tab.cc"
     break;
 
   case 31: // piecewise_list: epair
-#line 252 "parser.yy"
+#line 261 "parser.yy"
     {
        yylhs.value.as < SymEngine::PiecewiseVec > () = SymEngine::PiecewiseVec(1, yystack_[0].value.as < std::pair<SymEngine::RCP<const SymEngine::Basic>, SymEngine::RCP<const SymEngine::Boolean>> > ());
-    }
-#line 1052 "parser.tab.cc"
-    break;
-
-  case 32: // pwise: PIECEWISE '(' piecewise_list ')'
-#line 259 "parser.yy"
-    {
-        assert(yystack_[3].value.as < std::string > () == "Piecewise");
-        yylhs.value.as < SymEngine::RCP<const SymEngine::Basic> > () = piecewise(std::move(yystack_[1].value.as < SymEngine::PiecewiseVec > ()));
     }
 #line 1061 "parser.tab.cc"
     break;
 
-  case 33: // expr_list: expr_list ',' expr
+  case 32: // pwise: PIECEWISE '(' piecewise_list ')'
 #line 268 "parser.yy"
     {
-        yylhs.value.as < SymEngine::vec_basic > () = yystack_[2].value.as < SymEngine::vec_basic > (); // TODO : should make copy?
-        yylhs.value.as < SymEngine::vec_basic > () .push_back(yystack_[0].value.as < SymEngine::RCP<const SymEngine::Basic> > ());
+        assert(yystack_[3].value.as < std::string > () == "Piecewise");
+        yylhs.value.as < SymEngine::RCP<const SymEngine::Basic> > () = piecewise(std::move(yystack_[1].value.as < SymEngine::PiecewiseVec > ()));
     }
 #line 1070 "parser.tab.cc"
     break;
 
+  case 33: // expr_list: expr_list ',' expr
+#line 277 "parser.yy"
+    {
+        yylhs.value.as < SymEngine::vec_basic > () = yystack_[2].value.as < SymEngine::vec_basic > (); // TODO : should make copy?
+        yylhs.value.as < SymEngine::vec_basic > () .push_back(yystack_[0].value.as < SymEngine::RCP<const SymEngine::Basic> > ());
+    }
+#line 1079 "parser.tab.cc"
+    break;
+
   case 34: // expr_list: expr
-#line 274 "parser.yy"
+#line 283 "parser.yy"
     {
         yylhs.value.as < SymEngine::vec_basic > () = vec_basic(1, yystack_[0].value.as < SymEngine::RCP<const SymEngine::Basic> > ());
     }
-#line 1078 "parser.tab.cc"
+#line 1087 "parser.tab.cc"
     break;
 
 
-#line 1082 "parser.tab.cc"
+#line 1091 "parser.tab.cc"
 
             default:
               break;
@@ -1409,10 +1419,10 @@ namespace yy {
   const short
   parser::yyrline_[] =
   {
-       0,   103,   103,   111,   114,   117,   120,   125,   135,   138,
-     141,   144,   147,   150,   153,   156,   164,   172,   180,   183,
-     186,   189,   192,   197,   202,   208,   213,   218,   225,   233,
-     245,   251,   258,   267,   273
+       0,   112,   112,   120,   123,   126,   129,   134,   144,   147,
+     150,   153,   156,   159,   162,   165,   173,   181,   189,   192,
+     195,   198,   201,   206,   211,   217,   222,   227,   234,   242,
+     254,   260,   267,   276,   282
   };
 
   void
@@ -1491,5 +1501,5 @@ namespace yy {
   }
 
 } // yy
-#line 1495 "parser.tab.cc"
+#line 1504 "parser.tab.cc"
 
